@@ -236,16 +236,20 @@ def unit_combination_score(ctx):
 
 def build(ctx):
     ctx.trust("contract of Metric.__call__ with label selection: a function of (reference label, set of prediction labels) - proved in C06",
-              "contract of _calc_matching_metric_of_overlapping_labels (C03/U5): best-first candidate list, score_i = metric of the single pair")
+              "contract of _calc_matching_metric_of_overlapping_labels: best-first candidate list, score_i = metric of the single pair (discharged on the real function by the scorer unit, included here)")
     for mname in MATCH_METRICS:
         ctx.unit(f"merge[{mname}]", lambda mname=mname: unit_merge(ctx, mname))
         ctx.unit(f"merge-bookkeeping[{mname}]", lambda mname=mname: unit_merge(ctx, mname, "bookkeeping"))
     ctx.unit("new_combination_score", lambda: unit_combination_score(ctx))
+    # the candidate list the merge matcher walks through: its contract is discharged on the real scorer (C03's unit), regenerated here
+    include_stage(ctx, "C03", only=lambda mod, sub: [sub.unit(f"scorer[{m}]", lambda m=m: mod.unit_scorer(sub, m)) for m in MATCH_METRICS])
     ctx.add_bounded("c14-enum", "c14.bounded")
     ctx.add_bounded("c14-fn-enum", "c14.bounded_fn")
 
 
 def concretise(ctx, o, r):
+    if (o.info or {}).get("stage"):
+        return stage_concretise(ctx, o, r)
     if o.replay != "c14.merge":
         return None
     m = r.get("model") or {}
